@@ -25,15 +25,31 @@ import (
 //          verifPoint window get extra repetitions with jitter hooks; timer operations get the opponent aligned
 //          with the firing. Race reports are attributed to the pair through the @@CASE marker.
 // soak     (-race) mixed random workload: 3 connections, 6-10 API goroutines, heartbeat running, approval callbacks
-//          with a 15 ms timeout, fixed operation count, per-goroutine progress watchdog.
+//          with a 15 ms timeout on both writable features, fixed operation count, per-goroutine progress watchdog.
 // deadlock (plain) the same workload at higher speed plus six targeted lock-order scenarios (the last two: writes that are
 //          approved at once || removal notifies of unrelated entities on all connections || DeviceLocal.CleanRemoteEntityCaches
 //          from an application goroutine; connections WITHOUT writer - every send fails - whose discovery replies are handled
-//          and to which requests are sent again and again, next to healthy connections).
+//          and to which requests are sent again and again, next to healthy connections, while the heartbeat stream ticks).
+//
+// The world (c17_world.go): local entity [1] (LoadControl server bound by peer 0, Measurement client, DeviceDiagnosis
+// server with heartbeat) and entity [2] (Measurement client, DeviceDiagnosis server, LoadControl server bound by peer 1:
+// the second writer). The busy object is also the one that goes: RemoveEntity/AddEntity of entity [1] and of entity [2]
+// (removal and re-addition in different rounds, the re-addition restores use cases, subscriptions, bindings, heartbeat),
+// inbound notify/reply/result/subscribe to the features of both entities, a discovery notify that removes and re-adds
+// the peer's entity [1] (the one holding binding, subscriptions and pending writes). The bindings change hands with
+// writes pending ([1]/1 between the healthy peers, [2]/3 between peer 1 and a peer without writer whose results can not
+// be sent). Peers without writer subscribe to LoadControl [1]/1 and DeviceDiagnosis [1]/3, so local data updates AND the
+// heartbeat stream meet failing sends. The application side is part of the workload: event handlers, response/result
+// callbacks and approval callbacks read (marshal) the payload they were given, retain it and read the one retained
+// before again; the duellists do the same with DataCopy results (c17W.keep).
 //
 // Oracle: a race report whose one side is a spine-go frame = violation race/<Type.field> (rig/race.go); an
 // operation that does not return keeps the case waiting so that the parent's quiet-period monitor takes the
-// goroutine dump (hang@<frame> only if a goroutine is parked inside spine-go); a panic inside an operation, a
+// goroutine dump (hang@<frame> only if a goroutine is parked inside spine-go); the same happens when, after the
+// teardown of a world, a callback that was entered has not returned (entered/returned counters per callback kind,
+// c17W.settle) or when at the end of a case goroutines started during the case are still alive (rig.WaitQuiet false,
+// c17Quiet: a heartbeat stream, a fired approval timer or a callback parked on one of the stack's locks while every
+// operation returned) - both waits are watchdogs of 20 s, the verdict is the dump's; a panic inside an operation, a
 // callback or (recovered by the stack) inside the handling of a well-formed message = violation.
 
 func init() {
@@ -42,16 +58,22 @@ func init() {
 	rig.Register(&rig.Check{
 		ID:    "C17",
 		Floor: len(pairs) / 2,
-		Rule: fmt.Sprintf("duel: %d operations covering the public API and every inbound message kind, all %d unordered pairs (incl. self pairs), one case per pair with r repetitions (quick 3, thorough 40; +2/+8 with jitter hooks for pairs passing a hook window) "+
-			"over prior states rich/busy/sparse/churned and same/other connection variants. soak/deadlock: seeded random mix of the same operations on 3 connections (plus up to two connections without writer, set up by the operation that uses them) with 6-10 goroutines; "+
+		Rule: fmt.Sprintf("duel: %d operations covering the public API and every inbound message kind, all %d unordered pairs (incl. self pairs), one case per pair with r repetitions (quick 7, thorough 40; +2/+8 with jitter hooks for pairs passing a hook window) "+
+			"over prior states rich/busy/sparse/churned and same/other connection variants; the operations include removal/re-addition of the BUSY local entity [1] and of entity [2] (removed state lasting a round, re-addition restoring its subscriptions/bindings/use cases/heartbeat), inbound traffic to the features of both entities, "+
+			"a discovery notify removing and re-adding the peer's busy entity [1], two writers (peer 0 on [1]/1, peer 1 on [2]/3), bindings changing hands with writes pending (also to a peer without writer), peers without writer subscribed to LoadControl and to the heartbeat's DeviceDiagnosis feature. "+
+			"Application side: handlers and callbacks marshal the payload they get (p.Data, msg.Data, m.Cmd/header/filters), retain it and marshal the retained one again; duellists do so with DataCopy results. "+
+			"soak/deadlock: seeded random mix of the same operations on 3 connections (plus up to two connections without writer, set up by the operation that uses them) with 6-10 goroutines; "+
 			"deadlock additionally runs %d targeted scenarios x 3 (thorough 25) with 300 (1500) iterations per worker: approve|disconnect|clean, publish|handlers-calling-back|subscribe, RemoveEntity|inbound|disconnect, heartbeat|RemoveEntity|SetData, "+
-			"auto-approved-writes(k=1|2)|entity-removal-notify|CleanRemoteEntityCaches, mute-connections|healthy-connections. "+
+			"auto-approved-writes(k=1|2)|entity-removal-notify|CleanRemoteEntityCaches, mute-connections|healthy-connections|heartbeat-ticks. "+
+			"Completion: every operation under a 20 s watchdog; after the teardown of every world each callback kind (event-handler, approval, response+result) must have returned as often as it was entered, and at the end of every case the goroutine count must be back at its value from the start of the case (heartbeat streams, fired timers, callbacks); expiry of any of these watchdogs hands the case to the parent's goroutine dump (hang@<frame> only for a goroutine parked inside spine-go for a minute; a heartbeat stream idling in its select is not parked, one waiting for a mutex is), otherwise inconclusive. "+
 			"A case is non-trivial if every operation it started returned (no watchdog expiry) ; distinct = distinct pair (duel) / distinct (part, scenario, goroutine count) otherwise.", len(ops), len(pairs), c17Scenarios),
 		Assumptions: []string{
 			"a clean matrix means: no race between any two of these operations in these prior states, not 'for all schedules'",
 			"the messages of ONE connection are delivered one after the other (per-connection harness mutex), as SHIP's synchronous read loop does (ws readPump -> HandleIncomingWebsocketMessage -> HandleShipPayloadMessage); messages of different connections, API calls, timers and heartbeats run concurrently with them, so the same-connection variant of an inbound x inbound pair is 'both orders, unsynchronised start', not 'overlapping'",
-			"blocking forever is decided by the parent's quiet-period monitor on a goroutine dump (a goroutine parked >= 1 minute inside spine-go); watchdog expiry without that is inconclusive",
-			"well-formed messages only: a panic recovered by HandleSpineMesssage is still counted as a violation because no input here is malformed",
+			"blocking forever is decided by the parent's quiet-period monitor on a goroutine dump (a goroutine parked >= 1 minute inside spine-go); watchdog expiry without that is inconclusive. This holds for operations, for callbacks that were entered but did not return, and for goroutines of the stack (heartbeat stream, timer function) still alive after the teardown; a goroutine that is alive but not parked in spine-go (a leaked but running heartbeat stream) is not decided by the statement and ends inconclusive",
+			"nothing of the stack legitimately outlives the teardown of a world: approval timers are time.AfterFunc timers (no goroutine until they fire), stopped heartbeat streams leave their select at once, callbacks and handlers return; the goroutine count is compared with the count at the START of the same case, so goroutines left over from earlier cases of the worker do not matter",
+			"well-formed messages only: a panic recovered by HandleSpineMesssage is still counted as a violation because no input here is malformed; repeated discovery replies, repeated subscription/binding requests, binding requests for a bound feature and messages of an entity the peer removed before are well-formed (answered with an error result)",
+			"application-side reads are reads only: the harness never writes into data the stack handed out; a retained value is owned by the goroutine that swapped it out of its slot (atomic pointer), so harness goroutines never share one",
 		},
 		Parts: []rig.Part{
 			{Name: "duel", Race: true, Cases: func(t rig.Tier) int { return len(pairs) }, Run: c17DuelCase, Quiet: 45 * time.Second, Chunk: 20, Procs: 4},
@@ -274,9 +296,10 @@ func c17DuelCase(c *rig.Ctx) {
 		if ok, _ := rig.Guard(c17OpGuard, cw.close); !ok {
 			c17Stuck(c, "teardown after pair "+name)
 		}
+		cw.settle("pair " + name + " (" + v + ")")
 		c.Count("callbacks_run", cw.cbRuns.Load())
 	}
-	rig.WaitQuiet(base, 2*time.Second)
+	c17Quiet(c, base, "pair "+name)
 	c.Count("ops_completed", int64(execs))
 	c.Events(int64(execs))
 	c.NonTrivial(completed == 2*len(reps))
@@ -384,10 +407,11 @@ func c17SoakWorld(c *rig.Ctx) *c17W {
 		cw.nApproval.Add(1)
 		_ = cw.lc.AddWriteApprovalCallback(func(m *api.Message) {
 			defer cw.guardCB("approval")
-			cw.cbRuns.Add(1)
+			defer cw.cbEnter(c17CbApproval)()
 			if m == nil || m.RequestHeader == nil || m.RequestHeader.MsgCounter == nil {
 				return
 			}
+			cw.keepMsg(m)
 			switch uint64(*m.RequestHeader.MsgCounter) % 3 {
 			case 0:
 				cw.lc.ApproveOrDenyWrite(m, model.ErrorType{})
@@ -400,6 +424,7 @@ func c17SoakWorld(c *rig.Ctx) *c17W {
 			}
 		})
 	}
+	cw.autoVerdicts(cw.lc2, 15*time.Millisecond)
 	h := &c17Handler{cw: cw, deep: true}
 	cw.mu.Lock()
 	cw.appH = append(cw.appH, h)
@@ -452,7 +477,8 @@ func c17SoakCase(c *rig.Ctx) {
 	if ok, _ := rig.Guard(c17OpGuard, cw.close); !ok {
 		c17Stuck(c, "teardown of the soak world")
 	}
-	rig.WaitQuiet(base, 3*time.Second)
+	cw.settle("the soak")
+	c17Quiet(c, base, "the soak")
 	c17Report(c, fmt.Sprintf("soak/g%d", g), done, per, cw, map[string]any{"goroutines": g, "connections": 3, "approval_timeout_ms": 15})
 }
 
@@ -488,7 +514,8 @@ func c17DeadlockCase(c *rig.Ctx) {
 		if ok, _ := rig.Guard(c17OpGuard, cw.close); !ok {
 			c17Stuck(c, "teardown of the mixed world")
 		}
-		rig.WaitQuiet(base, 3*time.Second)
+		cw.settle("the mixed workload")
+		c17Quiet(c, base, "the mixed workload")
 		c17Report(c, fmt.Sprintf("mixed/g%d", g), done, per, cw, map[string]any{"goroutines": g, "connections": 3})
 		return
 	}
@@ -618,7 +645,8 @@ func c17DeadlockCase(c *rig.Ctx) {
 			cw.nApproval.Add(1)
 			_ = cw.lc.AddWriteApprovalCallback(func(m *api.Message) {
 				defer cw.guardCB("approval")
-				cw.cbRuns.Add(1)
+				defer cw.cbEnter(c17CbApproval)()
+				cw.keepMsg(m)
 				cw.lc.ApproveOrDenyWrite(m, model.ErrorType{})
 			})
 		}
@@ -672,10 +700,9 @@ func c17DeadlockCase(c *rig.Ctx) {
 		// inside Events.Publish) must return all the same, again and again
 		name = "mute-connections|healthy-connections"
 		rr := r()
-		inboundOfMute := func(m *c17Mute, send func(cl model.CmdClassifierType, src, dst *model.FeatureAddressType, ack bool, ref *model.MsgCounterType, cmd model.CmdType)) {
-			nm := rig.FA(m.addr, []uint{0}, 0)
-			send(model.CmdClassifierTypeRead, nm, rig.LNM, false, nil, model.CmdType{NodeManagementUseCaseData: &model.NodeManagementUseCaseDataType{}})
-			send(model.CmdClassifierTypeCall, nm, rig.LNM, true, nil, model.CmdType{NodeManagementSubscriptionRequestCall: spine.NewNodeManagementSubscriptionRequestCallType(rig.FA(m.addr, e1a, 1), cw.lc.Address(), model.FeatureTypeTypeLoadControl)})
+		inboundOfMute := func(m *c17Mute, send c17MuteSend) {
+			send(model.CmdClassifierTypeRead, rig.FA(m.addr, []uint{0}, 0), rig.LNM, false, nil, model.CmdType{NodeManagementUseCaseData: &model.NodeManagementUseCaseDataType{}})
+			cw.muteSubs(m, send) // LoadControl and DeviceDiagnosis: the publisher's SetData and the heartbeat stream notify a peer without writer
 		}
 		ws = []c17Worker{
 			{name: "mute0-api", steps: iters, step: func(i int) string {
@@ -712,6 +739,14 @@ func c17DeadlockCase(c *rig.Ctx) {
 				cw.lc.SetData(model.FunctionTypeLoadControlLimitListData, c17Limits(i)) // notifies the subscribers, a mute one among them
 				spine.Events.Publish(api.EventPayload{Ski: cw.cn(2).ski, EventType: api.EventTypeDataChange, ChangeType: api.ElementChangeUpdate, Device: cw.rd(2)})
 				return "api.Events.Publish"
+			}},
+			// the heartbeat stream of entity [1] notifies the subscribed peers without writer on every tick; nothing waits
+			// for the stream, so the scenario lasts at least four ticks (the stream itself is judged by settle/c17Quiet:
+			// it must be gone after the teardown)
+			{name: "heartbeat-ticks", steps: 4, step: func(i int) string {
+				c0 := cw.hbCounter()
+				rig.WaitFor(2*time.Second, func() bool { return cw.hbCounter() > c0 })
+				return "timer.heartbeat-tick"
 			}},
 		}
 	default:
@@ -756,7 +791,8 @@ func c17DeadlockCase(c *rig.Ctx) {
 	if ok, _ := rig.Guard(c17OpGuard, cw.close); !ok {
 		c17Stuck(c, "teardown after scenario "+name)
 	}
-	rig.WaitQuiet(base, 3*time.Second)
+	cw.settle("scenario " + name)
+	c17Quiet(c, base, "scenario "+name)
 	c17Report(c, "scenario/"+name, done, per, cw, map[string]any{"scenario": name, "goroutines": len(ws), "iterations": iters})
 }
 
@@ -774,7 +810,10 @@ func (h *c17Reentrant) HandleEvent(p api.EventPayload) {
 	if len(p.Ski) < len(h.cw.w.Tag) || p.Ski[:len(h.cw.w.Tag)] != h.cw.w.Tag {
 		return
 	}
-	h.cw.cbRuns.Add(1)
+	defer h.cw.cbEnter(c17CbEvent)()
+	if p.Function != "" {
+		h.cw.keep(&h.cw.keptCB[c17CbEvent], p.Data)
+	}
 	n := h.n.Add(1)
 	x := &c17Handler{cw: h.cw}
 	_ = spine.Events.Subscribe(x)
